@@ -20,14 +20,14 @@ Vars(k) ==
     [] k = "ip4"  -> {"plain", "opts", "frag"}
     [] k = "ip6"  -> {"plain", "hbh", "rt", "dst", "frag", "hbhdst", "nonext", "dstx20"}
     [] k = "udp"  -> {"-"}
-    [] k = "tcp"  -> {"plain", "eol", "opts", "sack", "mpcap", "mpjoin", "mpdss", "unk", "unkmax"}
+    [] k = "tcp"  -> {"plain", "eol", "opts", "sack", "mpcap", "mpjoin", "mpdss", "unk", "unkmax", "optmax"}
     [] k = "echo" -> {"req", "rep"}
     [] k = "igmp" -> {"query", "report1", "report2", "leave", "v3report"}
     [] k = "gre"  -> {"plain", "key", "seq", "keyseq", "csum", "route"}
-    [] k = "dhcp" -> {"bootp", "bare", "end", "disc", "offer", "overload"}
-    [] k = "dns"  -> {"empty", "q", "mdns", "resp", "multi"}
-    [] k = "rip"  -> {"req", "resp"}
-    [] k = "lldp" -> {"min", "full", "netport", "macport"}
+    [] k = "dhcp" -> {"bootp", "bare", "end", "disc", "offer", "overload", "long", "longover"}
+    [] k = "dns"  -> {"empty", "q", "mdns", "resp", "multi", "txtlong", "many"}
+    [] k = "rip"  -> {"req", "resp", "full25"}
+    [] k = "lldp" -> {"min", "full", "netport", "macport", "long"}
     [] k = "eapol" -> {"eap", "start", "logoff", "key"}
     [] k = "eap"  -> {"reqid", "respid", "success", "failure", "md5"}
     [] k = "echo6" -> {"req", "rep"}
@@ -129,19 +129,23 @@ HLen(l) ==
     [] k = "ip6" -> (CASE v \in {"plain", "nonext"} -> 40 [] v = "hbhdst" -> 56
                        [] v = "dstx20" -> 200 [] v = "dstx180" -> 1480        \* chains of 20 / 180 /
                        [] v = "dstx1100" -> 8840 [] v = "dstx8000" -> 64040   \* 1100 / 8000 headers
+                       [] v = "dstbig" -> 2088                                \* one header of the maximal 2048 octets
                        [] OTHER -> 48)
     [] k = "udp" -> 8
     [] k = "tcp" -> (CASE v = "plain" -> 20 [] v \in {"eol", "unk"} -> 24
-                       [] v \in {"opts", "mpdss"} -> 40 [] v = "unkmax" -> 60 [] OTHER -> 32)
+                       [] v \in {"opts", "mpdss"} -> 40 [] v \in {"unkmax", "optmax"} -> 60 [] OTHER -> 32)
     [] k \in {"icmp", "echo", "unreach", "timex", "icmp6", "echo6", "unreach6", "toobig", "timex6", "eapol"} -> 4
     [] k = "igmp" -> IF v = "v3report" THEN 20 ELSE 8
     [] k = "gre" -> (CASE v = "plain" -> 4 [] v = "keyseq" -> 12 [] v = "route" -> 20 [] OTHER -> 8)
     [] k = "vxlan" -> 8
     [] k = "dhcp" -> (CASE v = "bootp" -> 300 [] v = "bare" -> 240 [] v = "end" -> 241
-                        [] v = "disc" -> 265 [] v = "offer" -> 305 [] v = "overload" -> 247)
-    [] k = "dns" -> (CASE v = "empty" -> 12 [] v \in {"q", "mdns"} -> 33 [] v = "resp" -> 49 [] v = "multi" -> 150)
-    [] k = "rip" -> IF v = "req" THEN 24 ELSE 44
-    [] k = "lldp" -> (CASE v = "min" -> 20 [] v = "full" -> 71 [] v = "netport" -> 23 [] v = "macport" -> 24)
+                        [] v = "disc" -> 265 [] v = "offer" -> 305 [] v = "overload" -> 247
+                        [] v = "long" -> 648 [] v = "longover" -> 449)    \* one option code in several parts (RFC 3396)
+    [] k = "dns" -> (CASE v = "empty" -> 12 [] v \in {"q", "mdns"} -> 33 [] v = "resp" -> 49 [] v = "multi" -> 150
+                       [] v = "txtlong" -> 345 [] v = "many" -> 417)
+    [] k = "rip" -> (CASE v = "req" -> 24 [] v = "full25" -> 504 [] OTHER -> 44)
+    [] k = "lldp" -> (CASE v = "min" -> 20 [] v = "full" -> 71 [] v = "netport" -> 23 [] v = "macport" -> 24
+                        [] v = "long" -> 835)                   \* TLVs of 300 and 511 (the maximum) octets
     [] k = "eap" -> (CASE v = "reqid" -> 5 [] v = "respid" -> 9 [] v = "md5" -> 22 [] OTHER -> 4)
     [] k = "rs" -> IF v = "plain" THEN 4 ELSE 12
     [] k = "ra" -> IF v = "plain" THEN 12 ELSE 60
